@@ -104,6 +104,7 @@ def POST_INSTALL():
     merge.install_dispatchers()
     _install_linalg_stub()
     _install_mirror_merge()
+    _install_csc_boundary()
     if os.environ.get("C04_DEBUG"):
         import faulthandler, signal
         faulthandler.register(signal.SIGUSR1, all_threads=True)
@@ -877,6 +878,10 @@ class _LinalgStub:
     def __getattr__(self, name):
         return getattr(self._real, name)
 
+    def cholesky(self, a, *args, **kw):
+        from symx import shim
+        return self._real.cholesky(np.asarray(shim.normalise(a), dtype=float), *args, **kw)
+
     def solve(self, a, b):
         from symx import shim
         a = shim.normalise(a)
@@ -891,6 +896,22 @@ def _install_linalg_stub():
     if not isinstance(getattr(shim.NPFacade, "linalg", None), property):
         stub = _LinalgStub(_np.linalg)
         shim.NPFacade.linalg = property(lambda self: stub)
+
+
+def _install_csc_boundary():
+    """library boundary: scipy's csc_matrix (imported by name in inversion/abstract.py) refuses object arrays - hand it the float64 form of the
+    (all-concrete) matrix"""
+    from autoarray.inversion.inversion import abstract as ab
+    from symx import shim
+    real = ab.csc_matrix
+    if getattr(real, "_c04_wrapped", False):
+        return
+
+    def csc(a, *args, **kw):
+        return real(shim.normalise(a), *args, **kw)
+
+    csc._c04_wrapped = True
+    ab.csc_matrix = csc
 
 
 def _install_mirror_merge():
@@ -968,29 +989,60 @@ def body_inversion(inp, ky, kx, specs, solve=False, split=False):
     try:
         for tag, wt in (("map", False), ("wt", True)):
             st = aa.SettingsInversion(use_w_tilde=wt, use_positive_only_solver=False, no_regularization_add_to_curvature_diag_value=EPS_DIAG)
-            inv = hx.attempt(lambda: aa.Inversion(dataset=dataset, linear_obj_list=objs, settings=st))
-            if isinstance(inv, hx.Raised):
-                A[tag + ".inversion"], E[tag + ".inversion"] = inv, "constructed"
-                continue
-            A[tag + ".formalism"] = type(inv).__name__
-            E[tag + ".formalism"] = "InversionImagingWTilde" if (wt and not all_funcs) else "InversionImagingMapping"
-            put(A, E, tag + ".operated_mapping_matrix", hx.attempt(lambda: np.array(inv.operated_mapping_matrix)), B, split)
-            put(A, E, tag + ".data_vector", hx.attempt(lambda: np.array(inv.data_vector)), Dref, split)
-            F = hx.attempt(lambda: np.array(inv.curvature_matrix))       # copy: curvature_reg_matrix adds H in place
-            put(A, E, tag + ".curvature_matrix", F, Fref, split)
-            if not isinstance(F, hx.Raised) and getattr(F, "shape", None) == (m, m):
-                A[tag + ".curvature_symmetric"] = F - F.T
-                E[tag + ".curvature_symmetric"] = np.zeros((m, m))
-            if solve:
-                H = np.asarray(shim.normalise(np.asarray(inv.regularization_matrix)), dtype=float)
-                Fc = shim.normalise(Fref)
-                A[tag + ".reconstruction"] = hx.attempt(lambda: np.array(inv.reconstruction))
-                E[tag + ".reconstruction"] = exact_solve(np.asarray(Fc, dtype=float) + H, Dref) if not shim.has_sym(Fc) else "concrete curvature expected"
-                inv.__dict__.pop("reconstruction", None)
-            # mapped reconstructed data for an arbitrary reconstruction vector (injected in place of the solver's output)
-            inv.__dict__["reconstruction"] = rec
-            put(A, E, tag + ".mapped_reconstructed_data", hx.attempt(lambda: np.array(hx.unwrap(inv.mapped_reconstructed_data))),
-                mm(B, rec.reshape(m, 1)).reshape(n), split)
+            # two inversion objects per formalism, read in opposite orders (the quantities are cached properties that share arrays):
+            #   "" : matrices first, then the history (curvature_reg_matrix, reconstruction, log-det terms), then the matrices AGAIN ("_after")
+            #   "_hfirst" : the history first, the matrices afterwards
+            for sfx in ("", "_hfirst"):
+                inv = hx.attempt(lambda: aa.Inversion(dataset=dataset, linear_obj_list=objs, settings=st))
+                if isinstance(inv, hx.Raised):
+                    A[tag + ".inversion" + sfx], E[tag + ".inversion" + sfx] = inv, "constructed"
+                    continue
+
+                def read_matrices(sf, full=True):
+                    if full:
+                        put(A, E, tag + ".operated_mapping_matrix" + sf, hx.attempt(lambda: np.array(inv.operated_mapping_matrix)), B, split)
+                    put(A, E, tag + ".data_vector" + sf, hx.attempt(lambda: np.array(inv.data_vector)), Dref, split)
+                    F = hx.attempt(lambda: np.array(inv.curvature_matrix))       # copy, so that later in-place updates cannot alias the reading
+                    put(A, E, tag + ".curvature_matrix" + sf, F, Fref, split)
+                    if full and not isinstance(F, hx.Raised) and getattr(F, "shape", None) == (m, m):
+                        A[tag + ".curvature_symmetric" + sf] = F - F.T
+                        E[tag + ".curvature_symmetric" + sf] = np.zeros((m, m))
+
+                def read_history(sf):
+                    H = np.asarray(shim.normalise(np.asarray(inv.regularization_matrix)), dtype=float)
+                    Href = np.zeros((m, m), dtype=object)
+                    for i in range(m):
+                        for j in range(m):
+                            Href[i, j] = Fref[i, j] + H[i, j]
+                    put(A, E, tag + ".curvature_reg_matrix" + sf, hx.attempt(lambda: np.array(inv.curvature_reg_matrix)),
+                        shim.normalise(Href) if not shim.has_sym(Href) else Href, split)
+                    if solve:
+                        Fc = shim.normalise(Fref)
+                        A[tag + ".reconstruction" + sf] = hx.attempt(lambda: np.array(inv.reconstruction))
+                        E[tag + ".reconstruction" + sf] = exact_solve(np.asarray(Fc, dtype=float) + H, Dref) if not shim.has_sym(Fc) else "concrete curvature expected"
+                        if any(o.regularization is not None for o in objs):
+                            # log-determinant terms: evaluated for their effect on the cached matrices (their values belong to C08)
+                            hist = [hx.attempt(lambda: float(inv.log_det_curvature_reg_matrix_term)), hx.attempt(lambda: float(inv.log_det_regularization_matrix_term))]
+                            bad = [h_ for h_ in hist if isinstance(h_, hx.Raised)]
+                            A[tag + ".log_det_terms_evaluated" + sf] = repr(bad[0]) if bad else "ok"
+                            E[tag + ".log_det_terms_evaluated" + sf] = "ok"
+                        inv.__dict__.pop("reconstruction", None)
+
+                if sfx == "":
+                    A[tag + ".formalism"] = type(inv).__name__
+                    E[tag + ".formalism"] = "InversionImagingWTilde" if (wt and not all_funcs) else "InversionImagingMapping"
+                    read_matrices("")
+                    read_history("")
+                    read_matrices("_after", full=False)
+                else:
+                    read_history(sfx)
+                    read_matrices(sfx)
+                # mapped reconstructed data for an arbitrary reconstruction vector (injected in place of the solver's output)
+                inv.__dict__["reconstruction"] = rec
+                put(A, E, tag + ".mapped_reconstructed_data" + sfx, hx.attempt(lambda: np.array(hx.unwrap(inv.mapped_reconstructed_data))),
+                    mm(B, rec.reshape(m, 1)).reshape(n), split)
+                if sfx == "":
+                    put(A, E, tag + ".curvature_matrix_last", hx.attempt(lambda: np.array(inv.curvature_matrix)), Fref, split)
     finally:
         conf.instance["general"]["inversion"]["check_reconstruction"] = old_check
     return A, E
@@ -1011,7 +1063,10 @@ def case_inversion(ctx, pattern, ky, kx, specs, mode, extra=0, signed=True, solv
 
     def known_for(key):
         b = base_key(key)
-        if b == "wt.curvature_matrix" or b == "wt.reconstruction":
+        for sf in ("_after", "_hfirst", "_last"):
+            if b.endswith(sf):
+                b = b[:-len(sf)]
+        if b in ("wt.curvature_matrix", "wt.reconstruction", "wt.curvature_reg_matrix"):
             return reg_f
         if b in ("wt.data_vector", "wt.curvature_symmetric", "wt.inversion", "wt.mapped_reconstructed_data", "wt.formalism", "wt.operated_mapping_matrix"):
             return reg_d
